@@ -160,7 +160,10 @@ Designated == {Out(f) : f \in FileSet}
 ParentDirs == {Dir(f) : f \in FileSet}
 Paths == Designated \cup ParentDirs \cup Others
 
-OldValue(st) == CASE st = "absent" -> "ABSENT" [] st = "gen" -> "GEN" [] st = "user" -> "USER" [] st = "dir" -> "DIR"
+\* "appears": the path is absent when the run starts and user content shows up there WHILE the run is still retrieving that
+\* file's template (another process, an editor, a checkout) -- strictly before anything was produced for it.  For the
+\* existence check and the write, which come later, it is an existing file: the contract treats it as one.
+OldValue(st) == CASE st = "absent" -> "ABSENT" [] st = "gen" -> "GEN" [] st \in {"user", "appears"} -> "USER" [] st = "dir" -> "DIR"
 Fs0(wd) == [p \in Paths |->
               IF p \in Designated THEN OldValue(wd.fs0[p[2]])
               ELSE IF p \in ParentDirs THEN (IF wd.fs0[p[2]] = "absent" THEN "ABSENT" ELSE "DIR")
